@@ -7,7 +7,7 @@ import (
 
 // P is a property path.
 type P struct {
-	Kind string `json:"kind"` // "pred", "type", "seq", "alt"
+	Kind string `json:"kind"`           // "pred", "type", "seq", "alt"
 	Name string `json:"name,omitempty"` // local name for pred (edge or literal property), e.g. "e0"
 	Inv  bool   `json:"inv,omitempty"`
 	Sub  []*P   `json:"sub,omitempty"`
@@ -249,8 +249,8 @@ const (
 )
 
 type refParser struct {
-	s   string
-	pos int
+	s      string
+	pos    int
 	unspec bool // met a construct whose status is unspecified (modifier other than ^)
 }
 
